@@ -364,6 +364,8 @@ def run(ctx, which):
             [c for c in cases if c.stream == "random"][:400]
         java_cross(ctx, world, jsel)
 
+    if len(ctx.violations) >= 3:
+        return      # decided; the later streams only add more of the same
     bad_arity_stream(ctx, world)
     resolution_across_edits(ctx, world)
     if which == "C07":
@@ -436,7 +438,8 @@ def table_cycle_stream(ctx):
             tabs[(cont is ir, "t%d" % i)] = (t, v)
         for cycle in (1, 2, 3):
             try:
-                ir2 = ms.load(gtirb, ms.save(ir))
+                with core.time_limit(30):
+                    ir2 = ms.load(gtirb, ms.save(ir))
             except (Exception, core.ImplTimeout) as e:   # noqa
                 ctx.report({"kind": "table-cycle-raises",
                             "exception": type(e).__name__},
@@ -448,8 +451,10 @@ def table_cycle_stream(ctx):
             for (at_ir, key), (t, v) in tabs.items():
                 cont2 = ir2 if at_ir else ir2.modules[0]
                 try:
+                    with core.time_limit(20):
+                        data2 = cont2.aux_data[key].data
                     got = cc.nan_normalise(cc.canon(cc.to_tokens(
-                        w2, t, cont2.aux_data[key].data)))
+                        w2, t, data2)))
                     want = cc.nan_normalise(cc.canon(cc.to_tokens(w, t, v)))
                 except (Exception, core.ImplTimeout) as e:   # noqa
                     got, want = "raised:" + type(e).__name__, "value"
